@@ -4,6 +4,7 @@ import ast
 from ..model import (AnalysisError, FUNC_TYPES, U, call_attr, call_name, dotted, enclosing, enclosing_function, guard_texts, guards_ex,
                      short, walk_body, walk_local, ancestors, parent, const_str, kwarg)
 from .. import feat
+from . import cleaner_shape as shape
 from ..util import params, find_calls, assigns_to, trace, stmt_of, has_exit, syn_dominates, line_loop, some_truthy
 from ..cfg import handler_names, is_catch_all
 from . import c06
@@ -387,6 +388,7 @@ def r8b_cleaner_bottom_up(cx):
     cm = cx.repo.module("insights.cleaner")
     cc = cm.func("Cleaner.clean_content", "C07.R8")
     lines = params(cc)[1]
+    shape.ensure_line_loop(cc, lines)
     loops = [s for s in cc.body if isinstance(s, ast.For) and line_loop(s, lines)[0] is not None]
     if not loops:
         cx.unknown(cc, "no loop over the lines in clean_content")
